@@ -8,7 +8,7 @@ from vyxal.context import Context
 from vyxal.elements import (base_255_number_compress, base_255_string_compress, optimal_compress, to_base, from_base, log_mold_multi)
 from vyxal.helpers import (to_base_digits, from_base_digits, to_base_alphabet, from_base_alphabet, uncompress_num, uncompress_str)
 
-RULE = ("numbers: every integer 1..1200 (quick) / 1..100000 (thorough), b^k-1, b^k, b^k+1 for every base 2..300 and every k with b^k < 10^120, "
+RULE = ("numbers: every integer 1..1200 (quick) / 1..12000 (thorough), multiples of 255 and their successors (to 10^5 quick / 10^6 thorough), small multiples of 255^k, b^k-1, b^k, b^k+1 for every base 2..300 and every k with b^k < 10^120, "
         "random integers to 10^120; strings: every string of length 1 and a third of those of length 2 (quick) / <= 3 (thorough) over [a-z ] not starting with a space, random "
         "to length 80; dictionary: random concatenations of dictionary words, spaces and printable ASCII (no backslash / back-quote). Oracles: "
         "compress with the element, run the produced text as a program, compare with the original (and, for dictionary compression, "
@@ -62,7 +62,11 @@ ORACLES = {"num_roundtrip": o_num, "str_roundtrip": o_str, "dict_roundtrip": o_d
 def run(ctx, widen=False):
     thorough = ctx.tier == "thorough" or widen
     rng = ctx.rng
-    nums = list(range(1, 100001 if ctx.tier == "thorough" else 1201))
+    # (1..100 000 took 70 minutes: sympy makes one round trip cost ~45 ms)
+    nums = list(range(1, 12001 if ctx.tier == "thorough" else 1201))
+    # multiples of the base and their neighbours (a low-order zero digit), small multiples of powers of the base
+    nums += [255 * m + d for m in range(1, 4000 if ctx.tier == "thorough" else 400, 1 if ctx.tier == "thorough" else 3) for d in (0, 1)][:9000]
+    nums += [255 ** k * m for k in (2, 3, 4, 7) for m in (1, 2, 3, 254, 255, 256)]
     edge = []
     for b in range(2, 301):
         k = 1
